@@ -200,6 +200,21 @@ func execute(r *core.Run, c *Case) {
 		req = req.WithContext(ctx)
 		r.Count("caller-gave-up-while-the-authority-was-asked", 1)
 	}
+	if c.Scheme == "notary.x509" && !c.NoTSA && c.Behaviour != "hangs-until-context-ends" && (len(c.Behaviour)+len(c.Validator)+c.TSALen)%4 == 1 {
+		// the request object has been used before, under the other scheme (no
+		// timestamp is due then, and none may be asked for): what the caller asks
+		// for now is what the object says now
+		req.SigningScheme = signature.SigningSchemeX509SigningAuthority
+		if e0, err := signature.NewEnvelope(c.MT); err == nil {
+			core.Guard(func() { e0.Sign(req) })
+		}
+		if n, _ := tsa.Log(); n != 0 {
+			r.Violation("authority-contacted:"+mtName(c.MT), c.desc()+": the authority was contacted while the request named the signing-authority scheme", c)
+			return
+		}
+		req.SigningScheme = signature.SigningSchemeX509
+		r.Count("request-object-used-before-under-the-other-scheme", 1)
+	}
 	var raw []byte
 	var serr error
 	r.Eval(1)
